@@ -3,7 +3,7 @@
 (*                                                                                          *)
 (* A tree is a function from canonical paths (sequences of names, <<>> = the private root)  *)
 (* to nodes  [k |-> "d"] | [k |-> "f", c |-> content] | [k |-> "l", t |-> segs] |           *)
-(* [k |-> "p"] (fifo).  A content is [n |-> length, b |-> bytes (small files) or <<>>,      *)
+(* [k |-> "p"] (fifo) | [k |-> "s"] (unix socket) | [k |-> "b"] (block device).  A content is [n |-> length, b |-> bytes (small files) or <<>>,      *)
 (* h |-> "" (small files) or a digest (big files)]: only equality, length and - for small   *)
 (* files - the bytes are ever used.                                                         *)
 (*                                                                                          *)
@@ -28,6 +28,8 @@ Dir      == [k |-> "d"]
 File(c)  == [k |-> "f", c |-> c]
 Link(s)  == [k |-> "l", t |-> s]
 Fifo     == [k |-> "p"]
+Sock     == [k |-> "s"]          \* a unix socket bound at the path
+Blk      == [k |-> "b"]          \* a block-device node without a driver behind it
 Small(b) == [n |-> Len(b), b |-> b, h |-> ""]
 Empty    == Small(<<>>)
 
@@ -120,6 +122,7 @@ OpenForWrite(t, segs) ==
     CASE w.r = "err"  -> [e |-> w.e]
       [] w.r = "node" -> IF t[w.p].k = "d" THEN [e |-> "EISDIR"]
                          ELSE IF t[w.p].k = "f" THEN [e |-> "ok", p |-> w.p, old |-> t[w.p].c]
+                         ELSE IF t[w.p].k \in {"s", "b"} THEN [e |-> "ENXIO"]   \* open(2) on a socket / driverless device
                          ELSE [e |-> "EBLOCK"]                 \* fifo: never generated
       [] w.r = "new"  -> IF TrailDir(segs) THEN [e |-> "EISDIR"]
                          ELSE [e |-> "ok", p |-> w.p, old |-> Empty]
@@ -145,7 +148,8 @@ ReadRef(t, segs) ==
     CASE w.r = "err"  -> R(w.e, t, NoVal)
       [] w.r = "new"  -> R("ENOENT", t, NoVal)
       [] w.r = "node" -> IF t[w.p].k = "f" THEN R("ok", t, t[w.p].c)
-                         ELSE IF t[w.p].k = "d" THEN R("EISDIR", t, NoVal) ELSE R("EBLOCK", t, NoVal)
+                         ELSE IF t[w.p].k = "d" THEN R("EISDIR", t, NoVal)
+                         ELSE IF t[w.p].k \in {"s", "b"} THEN R("ENXIO", t, NoVal) ELSE R("EBLOCK", t, NoVal)
 
 \* OpenOptions in full: f = <<read, write, append, truncate, create, create_new>>.  The option
 \* rules are std's (an access mode is required; truncate/create/create_new need write or append;
